@@ -1,5 +1,6 @@
 import P9Model.Session.Frame
 import P9Model.Session.BindOnSuccess
+import P9Model.Session.Refuse
 /-!
 # C04 — Session state machine: fid binding, open state and mode checks
 
@@ -242,5 +243,160 @@ theorem attach_binds_only_on_success (m : Msg) : BOS (hTattach m) := Session.att
 theorem xattrwalk_binds_only_on_success (m : Msg) : BOS (hTxattrwalk m) := Session.xattrwalk_binds_only_on_success m
 theorem create_rebinds_only_on_success (m : Msg) (uid rtyp : Nat) (h : rtyp ≠ 7) : BOS (hCreate m uid rtyp) :=
   Session.create_rebinds_only_on_success m uid rtyp h
+
+/-! ### open state and mode checks: refused before the backend -/
+
+/-- the negotiated msize of the connection being served (0 = none yet) -/
+def msizeOf (c : Ctx) : Nat := ((c.st.msize.find? (·.1 == c.conn)).map (·.2)).getD 0
+
+theorem connMsize_eval (c : Ctx) : connMsize c = .ok (msizeOf c) c := rfl
+theorem msizeOf_pinned (r : Nat) (c : Ctx) : msizeOf (pinned r c) = msizeOf c := rfl
+
+/-- evaluates a handler body on the pinned context up to its first refusal -/
+macro "refuse_body" h:ident : tactic => `(tactic|
+  (have hx := pinned_getD _ _ ($h).inRange
+   simp only [bind, pure, getRef_eval, isDeleted_eval, connMsize_eval, msizeOf_pinned, dirGuard, hx]))
+
+/-- `c'` is `c` with one reference count raised and lowered again: nothing else happened -/
+theorem untouched_refuse (t : Nat) (c : Ctx) : Untouched c (unpinned t (pinned t c)) := by
+  simp [Untouched, unpinned, pinned]
+
+/-- **Tread on a fid that is not opened** (and is no xattr fid): EINVAL, no backend call. -/
+theorem read_unopened (m : Msg) (r : Nat) (c : Ctx) (h : Bound (m.int 0) r c)
+    (hcnt : ¬ m.int 2 > maxLen) (hms : (msizeOf c == 0) = false)
+    (hx : (c.st.refs.getD r default).x.op = 0) (hop : (c.st.refs.getD r default).opened = false) :
+    hTread m c = .ok (rerr EINVAL) (unpinned r (pinned r c)) := by
+  unfold hTread; refine withFid_refuse _ r _ _ c h ?_
+  refuse_body h
+  simp only [msizeOf_pinned, hcnt, hms, hx, hop, ↓reduceIte, Bool.not_false, Bool.false_eq_true]
+  rfl
+
+/-- **Tread on a fid opened write-only**: EPERM, no backend call. -/
+theorem read_writeonly (m : Msg) (r : Nat) (c : Ctx) (h : Bound (m.int 0) r c)
+    (hcnt : ¬ m.int 2 > maxLen) (hms : (msizeOf c == 0) = false)
+    (hx : (c.st.refs.getD r default).x.op = 0) (hop : (c.st.refs.getD r default).opened = true)
+    (hmode : ((c.st.refs.getD r default).openFlags &&& 3 == 1) = true) :
+    hTread m c = .ok (rerr EPERM) (unpinned r (pinned r c)) := by
+  unfold hTread; refine withFid_refuse _ r _ _ c h ?_
+  refuse_body h
+  simp only [msizeOf_pinned, hcnt, hms, hx, hop, hmode, ↓reduceIte, Bool.not_true, Bool.false_eq_true]
+  rfl
+
+/-- **Twrite on a fid that is not opened**: EINVAL; **opened read-only**: EPERM – no backend call. -/
+theorem write_unopened (m : Msg) (r : Nat) (c : Ctx) (h : Bound (m.int 0) r c)
+    (hx : (c.st.refs.getD r default).x.op = 0) (hop : (c.st.refs.getD r default).opened = false) :
+    hTwrite m c = .ok (rerr EINVAL) (unpinned r (pinned r c)) := by
+  unfold hTwrite; refine withFid_refuse _ r _ _ c h ?_
+  refuse_body h
+  simp only [hx, hop, ↓reduceIte, Bool.not_false]
+  rfl
+
+theorem write_readonly (m : Msg) (r : Nat) (c : Ctx) (h : Bound (m.int 0) r c)
+    (hx : (c.st.refs.getD r default).x.op = 0) (hop : (c.st.refs.getD r default).opened = true)
+    (hmode : ((c.st.refs.getD r default).openFlags &&& 3 == 0) = true) :
+    hTwrite m c = .ok (rerr EPERM) (unpinned r (pinned r c)) := by
+  unfold hTwrite; refine withFid_refuse _ r _ _ c h ?_
+  refuse_body h
+  simp only [hx, hop, hmode, ↓reduceIte, Bool.not_true, Bool.false_eq_true]
+  rfl
+
+/-- **Treaddir on a directory fid that is not opened**: EINVAL, no backend call. -/
+theorem readdir_unopened (m : Msg) (r : Nat) (c : Ctx) (h : Bound (m.int 0) r c)
+    (hop : (c.st.refs.getD r default).opened = false) :
+    hTreaddir m c = .ok (rerr EINVAL) (unpinned r (pinned r c)) := by
+  unfold hTreaddir; refine withFid_refuse _ r _ _ c h ?_
+  refuse_body h
+  simp only [hop, Bool.not_false, ↓reduceIte]
+  generalize (_ || _) = b; cases b <;> rfl
+
+/-- **Tfsync on a fid that is not opened**: EINVAL, no backend call. -/
+theorem fsync_unopened (m : Msg) (r : Nat) (c : Ctx) (h : Bound (m.int 0) r c)
+    (hop : (c.st.refs.getD r default).opened = false) :
+    hSimple m "FSync" true 51 c = .ok (rerr EINVAL) (unpinned r (pinned r c)) := by
+  unfold hSimple; refine withFid_refuse _ r _ _ c h ?_
+  refuse_body h
+  simp only [hop, Bool.not_false, Bool.and_self, ↓reduceIte]
+
+/-- **A fid opens at most once, and only if its type can be opened**: a second Tlopen, or a Tlopen of
+a symlink / socket, is EINVAL; a directory opens read-only (EISDIR otherwise) – no backend call. -/
+theorem open_twice_or_unopenable (m : Msg) (r : Nat) (c : Ctx) (h : Bound (m.int 0) r c)
+    (hnd : (c.st.nodes.getD (c.st.refs.getD r default).node default).deleted = false)
+    (hbad : ((c.st.refs.getD r default).opened || !canOpen (c.st.refs.getD r default).mode) = true) :
+    hTlopen m c = .ok (rerr EINVAL) (unpinned r (pinned r c)) := by
+  unfold hTlopen; refine withFid_refuse _ r _ _ c h ?_
+  refuse_body h
+  have hnd' : ((pinned r c).st.nodes.getD (c.st.refs.getD r default).node default).deleted = false := hnd
+  simp only [hnd', hbad, ↓reduceIte, Bool.false_eq_true]
+
+theorem open_directory_for_writing (m : Msg) (r : Nat) (c : Ctx) (h : Bound (m.int 0) r c)
+    (hnd : (c.st.nodes.getD (c.st.refs.getD r default).node default).deleted = false)
+    (hok : ((c.st.refs.getD r default).opened || !canOpen (c.st.refs.getD r default).mode) = false)
+    (hdir : (isDir (c.st.refs.getD r default).mode && (m.int 1 &&& 3) != 0) = true) :
+    hTlopen m c = .ok (rerr EISDIR) (unpinned r (pinned r c)) := by
+  unfold hTlopen; refine withFid_refuse _ r _ _ c h ?_
+  refuse_body h
+  have hnd' : ((pinned r c).st.nodes.getD (c.st.refs.getD r default).node default).deleted = false := hnd
+  simp only [hnd', hok, hdir, ↓reduceIte, Bool.false_eq_true]
+
+/-- **Walking in place from an opened fid** (newfid = fid): EBUSY, no backend call. -/
+theorem walk_in_place_from_opened (m : Msg) (g : Bool) (r : Nat) (c : Ctx) (h : Bound (m.int 0) r c)
+    (hbusy : ((c.st.refs.getD r default).opened && m.int 0 == m.int 1) = true) :
+    hTwalkGen m g c = .ok (rerr EBUSY) (unpinned r (pinned r c)) := by
+  unfold hTwalkGen; refine withFid_refuse _ r _ _ c h ?_
+  refuse_body h
+  simp only [hbusy, ↓reduceIte]
+
+theorem dirGuard_opened (r : Nat) (c : Ctx) (hin : r < c.st.refs.length)
+    (hop : (c.st.refs.getD r default).opened = true) :
+    dirGuard r (pinned r c) = .ok (some EINVAL) (pinned r c) := by
+  have hx := pinned_getD r c hin
+  simp only [dirGuard, bind, pure, getRef_eval, isDeleted_eval, hx, hop, ↓reduceIte]
+  generalize (_ || _) = b; cases b <;> rfl
+
+/-- **Creating, linking or unlinking inside an opened directory fid** (mkdir, symlink, mknod, create,
+unlinkat share `dirGuard`): EINVAL, no backend call. -/
+theorem dirop_in_opened_directory (m : Msg) (fi ni : Nat) (meth : String) (a : List Nat) (ss : List Bytes) (t r : Nat)
+    (c : Ctx) (hs : safeName (m.str ni) = true) (h : Bound (m.int fi) r c)
+    (hop : (c.st.refs.getD r default).opened = true) :
+    hDirOp m fi ni meth a ss t c = .ok (rerr EINVAL) (unpinned r (pinned r c)) := by
+  unfold hDirOp; simp only [hs, dite_true]; refine withFid_refuse _ r _ _ c h ?_
+  simp only [bind, dirGuard_opened r c h.inRange hop]
+  rfl
+
+theorem create_in_opened_directory (m : Msg) (uid t r : Nat) (c : Ctx) (hs : safeName (m.str 1) = true)
+    (h : Bound (m.int 0) r c) (hop : (c.st.refs.getD r default).opened = true) :
+    hCreate m uid t c = .ok (rerr EINVAL) (unpinned r (pinned r c)) := by
+  unfold hCreate; simp only [hs, dite_true]; refine withFid_refuse _ r _ _ c h ?_
+  simp only [bind, dirGuard_opened r c h.inRange hop]
+  rfl
+
+theorem unlinkat_in_opened_directory (m : Msg) (r : Nat) (c : Ctx) (hs : safeName (m.str 1) = true)
+    (h : Bound (m.int 0) r c) (hop : (c.st.refs.getD r default).opened = true) :
+    hTunlinkat m c = .ok (rerr EINVAL) (unpinned r (pinned r c)) := by
+  unfold hTunlinkat; simp only [hs, dite_true]; refine withFid_refuse _ r _ _ c h ?_
+  simp only [bind, dirGuard_opened r c h.inRange hop]
+  rfl
+
+/-- what the refusals above leave behind: the fid table, the path tree, the call log and the oracle
+tape as they were, and every reference (counts included) as it was – the only thing that happened is
+that the fid's count went up and came down again. -/
+theorem refusal_leaves_everything (r k : Nat) (c : Ctx) (hin : r < c.st.refs.length) :
+    Untouched c (unpinned r (pinned r c)) ∧
+    (unpinned r (pinned r c)).st.refs.getD k default = c.st.refs.getD k default :=
+  ⟨untouched_refuse r c, unpinned_pinned_all r k c hin⟩
+
+/-- the hypotheses are satisfiable: connection 0 has fid 5 bound to an unopened regular file, and a
+Tread / Twrite / Tfsync on it is refused with EINVAL; fid 6 is an opened directory. -/
+def exampleCtx : Ctx :=
+  { st := { fids := [((0, 5), 0), ((0, 6), 1)],
+            refs := [{ file := 1, mode := ModeReg, refs := 1, node := 1 },
+                     { file := 2, mode := ModeDir, refs := 1, node := 0, opened := true }],
+            nodes := [{}, {}] },
+    tape := [] }
+
+example : Bound 5 0 exampleCtx ∧ (exampleCtx.st.refs.getD 0 default).opened = false :=
+  ⟨⟨rfl, by decide, by decide⟩, rfl⟩
+example : Bound 6 1 exampleCtx ∧ (exampleCtx.st.refs.getD 1 default).opened = true :=
+  ⟨⟨rfl, by decide, by decide⟩, rfl⟩
 
 end P9.C04
